@@ -91,7 +91,29 @@ def run_case(w):
                 ('array-f64', lambda: displacements.calc_velo_and_disp_from_accel_arr(a_f, dt, trap=trap)),
                 ('array-i64', lambda: displacements.calc_velo_and_disp_from_accel_arr(a_i, dt, trap=trap)),
                 ('alias', lambda: displacements.velocity_and_displacement_from_acceleration(a_f, dt, trap=trap)),
+                ('alias-positional', lambda: displacements.velocity_and_displacement_from_acceleration(a_f, dt, trap)),
             ]
+            if trap:
+                # python sequences are accepted by the trapezoid path (the rectangle path multiplies the record by dt and has never
+                # accepted a list - outside the property, noted in DESIGN.md 10.3)
+                entries.append(('array-list', lambda: displacements.calc_velo_and_disp_from_accel_arr([float(x) for x in w], dt, trap=trap)))
+                entries.append(('array-tuple-int', lambda: displacements.calc_velo_and_disp_from_accel_arr(tuple(w), dt, trap=trap)))
+
+            # sequences on one object: an explicit request for one rule after the other rule's series already exist
+            def obj_after_lazy():
+                s = eqsig.AccSignal(np.array(w, dtype=float), dt)
+                s.velocity
+                s.pgd
+                s.generate_displacement_and_velocity_series(trap=trap)
+                return s.velocity, s.displacement
+
+            def obj_after_other_rule():
+                s = eqsig.AccSignal(np.array(w, dtype=float), dt)
+                s.generate_displacement_and_velocity_series(trap=not trap)
+                s.generate_displacement_and_velocity_series(trap=trap)
+                return s.velocity, s.displacement
+            entries.append(('object-generate-after-lazy-read', obj_after_lazy))
+            entries.append(('object-generate-after-other-rule', obj_after_other_rule))
 
             def obj_explicit():
                 s = eqsig.AccSignal(np.array(w, dtype=float), dt)
